@@ -2122,6 +2122,22 @@ def _(E, c):
     return BitFieldV(nm)
 
 
+@model('<str>::parse', 'str::parse')
+def _(E, c):
+    """"literal".parse::<BigInt>() / parse::<integer>()"""
+    T = (c.callee.generics[-1][0] if c.callee.generics and c.callee.generics[-1] else '').strip()
+    v = E.deref(c.args[0])
+    if not isinstance(v, StrV):
+        return NotImplemented
+    if type_head(T) in ('BigInt', 'BigUint') or T in INT_TYPES:
+        try:
+            n = int(v.s.replace('_', ''))
+        except ValueError:
+            return err(OpaqueV('ParseError'), c.dest_ty)
+        return ok(BigV(n) if type_head(T) in ('BigInt', 'BigUint') else IntV(n, T), c.dest_ty)
+    return NotImplemented
+
+
 @model('re:^<(BigInt|BigUint) as FromStr>::from_str$', 'BigInt::parse_bytes', 're:^<(BigInt|BigUint) as Num>::from_str_radix$')
 def _(E, c):
     v = E.deref(c.args[0])
